@@ -286,6 +286,17 @@ func execCall(w *World, c Call) (res string, uuid string) {
 			return cls(s.Err()), ""
 		}
 		return fmt.Sprintf("ok:%d", s.Len()), ""
+	case "limitor":
+		// a limited search united with another one: V = the limit
+		spec := specByPath(c.Field)
+		s := db.Search(&Rec{}, c.Field, c.Cmp, spec.probes()[c.Probe]).Limit(uint64(c.V)).Or("P", ">=", int(0))
+		if s.Err() != nil {
+			return cls(s.Err()), ""
+		}
+		s.Collect()
+		s2 := db.Search(&Rec{}, "P", ">=", int(0)).Limit(uint64(c.V)).Reverse().And(c.Field, c.Cmp, spec.probes()[c.Probe])
+		s2.Collect()
+		return "done", ""
 	case "emptyor":
 		// union of a search that matches nothing (whenever it is evaluated) with a condition:
 		// the Or call is the only step that reads the collection
